@@ -67,7 +67,7 @@ def gen_vector(rng, n, kind, basis_index=0):
         # PSDs of models with a pole or zero on the unit circle contain inf / 0 at single bins
         v = np.array([rng.uniform(0.5, 100.0) for _ in range(n)])
         for _ in range(rng.randrange(1, 3)):
-            v[rng.choice([0, n - 1, rng.randrange(0, n)])] = rng.choice([float("inf"), 0.0, float("inf")])
+            v[rng.choice([0, n - 1, rng.randrange(0, n)])] = rng.choice([float("inf"), 0.0, float("inf"), float("nan")])
         return v
     if kind == "signed":
         # cross-spectra and differences of PSDs have negative entries; the conversions are linear
@@ -113,7 +113,9 @@ class Run(object):
                 N = cfg.get("N", max(M, 2))
                 data = np.arange(1, N + 1, dtype=float)
                 if self.cplx:
-                    data = data * (1 + 1j)
+                    # complex data; sometimes of complex dtype with an identically zero imaginary part (the kind is
+                    # decided by the dtype, as the kernels do)
+                    data = data.astype(complex) if cfg.get("zimag") else data * (1 + 1j)
                 self.p = sp.Spectrum(data, NFFT=M, sampling=cfg.get("sampling", 1.0))
                 v = dec_array(cfg["vec"])
                 self.p.psd = v
@@ -686,7 +688,7 @@ def base_cfg(rng, cplx, M, kind, basis_index=0):
     n = M if cplx else refmodel.n_onesided(M)
     vec = gen_vector(rng, n, kind, basis_index)
     return {"kind": "base", "cplx": bool(cplx), "M": M, "N": rng.choice([max(2, M), max(2, M // 2), M + 3]),
-            "_grng": rng.getrandbits(32),
+            "_grng": rng.getrandbits(32), "zimag": bool(cplx) and rng.random() < 0.15,
             "sampling": rng.choice([1.0, 1.0, 2.0, 1000.0, 0.5, 100.0, 44100.0, 8000.0, 0.1, 3.0, 1024.0]),
             "vec": enc_array(vec), "vkind": kind}
 
@@ -848,7 +850,8 @@ def gen_op(rng, run):
         return {"op": "copy", "deep": rng.random() < 0.3}
     if rng.random() < 0.08 and not run.dead:
         p = run.p
-        cands = [("sampling", "<current>"), ("scale_by_freq", "<current>"), ("NFFT", "<current>")]
+        cands = [("sampling", "<current>"), ("scale_by_freq", "<current>"), ("NFFT", "<current>"),
+                 ("NFFT", 0), ("NFFT", -4), ("NFFT", 2.5)]           # the last three are rejected: nothing may move
         try:
             if p.NFFT == p.N:
                 cands.append(("NFFT", None))
